@@ -6,7 +6,7 @@ def _dist_key(op, impl):
 
 CONFIG = dict(
     prop="C24",
-    ready=False,
+    ready=True,
     manifest=dict(
         text="Lean 4 theorems about a statement-by-statement state-machine model of daemon.Connections (pending / connected / "
              "introduced / remove / modify, canUpdateMirror, updateMirror, ListenAddr), for ALL event sequences of any length over "
@@ -30,8 +30,8 @@ CONFIG = dict(
     translators=[],
     props_files=["Sky/Props/C24.lean"],
     model_files=["Sky/C24/Model.lean", "Sky/C24/AMap.lean", "Sky/C24/Check.lean", "Sky/C24/Lemmas.lean",
-                 "Sky/C24/Preserve.lean", "Sky/C24/Drv.lean"],
-    min_ops={"quick": 15000, "thorough": 300000},
+                 "Sky/C24/Preserve.lean", "Sky/C24/Legacy.lean", "Sky/C24/Drv.lean"],
+    min_ops={"quick": 15000, "thorough": 600000},
     dist_key=_dist_key,
     trusted_base=[
         "Lean 4.33.0 kernel; axioms allowed: propext, Classical.choice, Quot.sound (audited by #print axioms)",
